@@ -1327,6 +1327,57 @@ fn native_qr_replay() {
     }
 }
 
+/// Native side of run/mirq.py, C11 instance (length arithmetic of `update` at full width): runs the
+/// REAL `update` once from the state `(len, tail_len)` with a zero-filled slice of `n` bytes (the
+/// allocation is lazily mapped, so multi-GiB slices cost nothing until they are hashed), prints
+/// `LN len tail_len n len' tail_len'` for the translator validation and compares with the length
+/// invariant of C11: `len' + tail_len' == min(len + tail_len + n, 2^32)`, `tail_len' == min(tail_len
+/// + n, 4)`, and `processed_len()` is `Some` exactly below 2^32.  Triples come from `VERIF_LEN`
+/// ("len,tail_len,n;...") or from a fixed table around the 2^32-4 saturation mark.
+#[cfg(test)]
+#[test]
+fn native_len_replay() {
+    const MAXL: u64 = (u32::MAX - 3) as u64;
+    let mut triples: Vec<(u32, u32, u64)> = Vec::new();
+    if let Ok(v) = std::env::var("VERIF_LEN") {
+        for item in v.split(';').filter(|x| !x.is_empty()) {
+            let f: Vec<&str> = item.split(',').collect();
+            triples.push((f[0].trim().parse().unwrap(), f[1].trim().parse().unwrap(), f[2].trim().parse().unwrap()));
+        }
+    } else {
+        let m = MAXL as u32;
+        triples.extend_from_slice(&[
+            (0, 0, 0), (0, 0, 3), (0, 0, 4), (0, 0, 5), (0, 2, 1), (0, 2, 2), (0, 2, 3), (0, 2, 9),
+            (0, 3, 1), (0, 4, 0), (0, 4, 1), (0, 4, 11), (100, 4, 50), (1_000_000, 4, 4096),
+            (m - 10, 4, 5), (m - 10, 4, 10), (m - 10, 4, 11), (m - 10, 4, 4096), (m - 1, 4, 1),
+            (m - 1, 4, 2), (m, 4, 0), (m, 4, 7), (m - 3, 4, (1u64 << 32) + 10), (m - 100, 4, 1u64 << 32),
+            (m, 4, (1u64 << 32) + 1), (m - 70_000, 4, 65_536), (m - 70_000, 4, 70_001),
+        ]);
+    }
+    for &(len, tl, n) in triples.iter() {
+        assert!(tl <= 4 && len as u64 <= MAXL && (tl == 4 || len == 0), "not a state of the invariant");
+        let mut g = GShort::default();
+        g.len = len;
+        g.tail_len = tl;
+        let data = vec![0u8; n as usize];
+        g.update(&data);
+        println!("LN {} {} {} {} {}", len, tl, n, g.len, g.tail_len);
+        let tot = core::cmp::min(len as u128 + tl as u128 + n as u128, 1u128 << 32);
+        let etl = core::cmp::min(tl as u128 + n as u128, 4);
+        assert_eq!(g.tail_len as u128, etl, "tail_len after update from ({len},{tl}) with {n} bytes");
+        assert_eq!(g.len as u128, tot - etl, "len after update from ({len},{tl}) with {n} bytes");
+        assert_eq!(g.processed_len(), if tot < (1u128 << 32) { Some(tot as u32) } else { None });
+        // the same on a 128-bucket variant (shared generic code)
+        let mut h = GNormal::default();
+        h.len = len;
+        h.tail_len = tl;
+        if n <= (1 << 20) || len as u64 >= MAXL - (1 << 20) {
+            h.update(&data);
+            assert_eq!((h.len, h.tail_len), (g.len, g.tail_len));
+        }
+    }
+}
+
 /// Native confirmation for `c18_gen_*` (fast path instead of Kani's playback generator, which
 /// needs tens of minutes for the 256-bucket instance): the generator operations of all five
 /// variants under the counting allocator of the replay build.
